@@ -46,7 +46,7 @@ TRACE = ("trace/FeaturesTrace.tla", "trace/FeaturesTrace.cfg")
 # other forms of the same batch (second element of a "batch" law entry; 0 = re-batched, float64 C-contiguous)
 FORMS = {1: "float32 input", 2: "int16 input", 3: "int32 input", 4: "int64 input", 5: "Fortran-ordered input",
          6: "axes-swapped view of an (n, trace, time) array", 7: "every-other-element view of a larger array",
-         8: "return_peak_channel=True", 9: "fs=2500.0 with the duration of the same offset",
+         8: "return_peak_channel=True", 9: "fs=2000.0 (a float) with the duration of the same offset",
          10: "values x 2**-20", 11: "second call on the same array object",
          12: "batch of the same shape right after the base call, rows rotated", 13: "2-D array of one waveform"}
 INT_FORMS = {2: np.int16, 3: np.int32, 4: np.int64}
@@ -168,16 +168,13 @@ def form_kwargs(d, form):
     0.16 ms -> 5 samples)"""
     kw = {} if d is None else {"fs": 1000, "recovery_duration_ms": d}
     if form == 9:
+        # callers pass the offset the base call was observed to use; dd / 2 * 2000.0 / 1000 is dd exactly, whatever
+        # way the code turns the duration into samples
         dd = 5 if d is None else d
-        kw = {"fs": 2500.0, "recovery_duration_ms": dd / 2.5}
+        kw = {"fs": 2000.0, "recovery_duration_ms": dd / 2.0}
     if form == 8:
         kw["return_peak_channel"] = True
     return kw
-
-
-def form_ok(d, form):
-    dd = 5 if d is None else d
-    return form != 9 or int(round(dd / 2.5 * 2500.0 / 1000)) == dd
 
 
 def call(arr, d, form=0):
@@ -327,7 +324,7 @@ def evaluate(ctx, mats, d, rnd, budget, single_cap, nforms=len(FORMS), form_cap=
                 if o is not None:
                     flaws[i].append(["batch", 12, o["row"], o["exc"]])
         for f in forms:
-            if f == 12 or not form_ok(d, f):
+            if f == 12:
                 continue
             elig = [i for i in range(n) if base[i] is not None and base[i]["exc"] == ""
                     and (f not in INT_FORMS or not any(v == NAN for row in sel[i] for v in row))]
@@ -335,7 +332,11 @@ def evaluate(ctx, mats, d, rnd, budget, single_cap, nforms=len(FORMS), form_cap=
             pick = sorted(rnd.sample(elig, cap)) if len(elig) > cap else elig
             if not pick:
                 continue
-            for i, o in zip(pick, robust([sel[i] for i in pick], d, False, fb, form=f)):
+            dform = d
+            if f == 9:
+                dobs = [base[i]["d"] for i in pick if base[i]["d"] is not None]
+                dform = dobs[0] if dobs else dd
+            for i, o in zip(pick, robust([sel[i] for i in pick], dform, False, fb, form=f)):
                 if o is not None:
                     flaws[i].append(["batch", f, o["row"], o["exc"]])
         # the same waveforms in other batches: reversed order, split in two unequal parts
@@ -437,6 +438,12 @@ def realistic_float(rnd, nrnd, T, C, p):
             cols.append(v * decay[k])
         w = np.stack(cols, axis=1) * amp * (1.0 if kind == "weakpos" else pol)
     w = w + nrnd.normal(0.0, amp * rnd.choice([0.0, 0.01, 0.05, 0.15]), size=w.shape)
+    # unfiltered data: a baseline that is not zero (common to all traces, or one per trace)
+    r = rnd.random()
+    if r < 0.2:
+        w = w + rnd.choice([-1.0, 1.0]) * rnd.uniform(0.05, 0.4) * amp
+    elif r < 0.3:
+        w = w + nrnd.uniform(-0.3, 0.3, size=(1, C)) * amp
     return w
 
 
@@ -580,8 +587,8 @@ def run(ctx):
         exported += json.loads(out.read_text())
     budget = Budget(400)
     # forms of the call: every form on (a sample of) every box group; a few forms drawn per realistic shape
-    fbox = {"form_cap": 100 if ctx.quick else 2500, "cap2d": 12 if ctx.quick else 150}
-    freal = {"nforms": 2 if ctx.quick else 5}
+    fbox = {"nforms": 5 if ctx.quick else len(FORMS), "form_cap": 100 if ctx.quick else 2500, "cap2d": 4 if ctx.quick else 150}
+    freal = {"nforms": 1 if ctx.quick else 4}
     groups = {}
     for k, c in enumerate(exported):
         for d in range(len(c["exp"])):
@@ -652,14 +659,17 @@ def run(ctx):
     selftest(ctx, recs, {v["index"] for v in verdicts}, expected)
     ctx.cov["rule"] = ("model: every integer waveform of the boxes (lengths 2..MaxT, values, 1-3 traces, NaN samples), every "
                        "recovery offset; spec->code: every exported case x offset replayed; code->spec: one recorded real "
-                       "execution (4 step events + returned row + scaled x2,x3 / permuted / re-batched copies) per waveform; "
-                       "non-trivial = admissible-looking waveform that returned and has law copies")
+                       "execution (4 step events + returned row + scaled x2,x3 / permuted / re-batched copies + copies handed "
+                       "over in the other forms of FORMS: element types, memory layouts, 2-D, options, second call, same "
+                       "shape next call) per waveform; non-trivial = admissible-looking waveform that returned and has law copies")
     ctx.cov["exhaustive"] = True
     ctx.cov["numeric_postconditions"] = ("scaling (x0.5, x2, x4), permutation and batch laws on float-valued realistic batches "
                                          "incl. slopes/durations/ratio are decided by projection (rtol 1e-9), not by TLC")
     ctx.assumptions += ["waveform values are integers (ADC counts) in everything TLC decides; |v| <= 30000",
                         "half-peak: a sample exactly at half the peak may or may not count as 'back within half'",
                         "permutation law demanded only when a single trace carries the global extremum",
+                        "integer element types are exercised on NaN-free waveforms within int16; a read-only array is not "
+                        "accepted by the unchanged code (it zeroes NaN in its argument) and is not demanded",
                         "precondition 'largest deflection not on the first sample' read as: no trace attains the global "
                         "|maximum| at sample 0; recovery offset < length"]
 
@@ -680,8 +690,8 @@ def compare_expected(recs, expected):
 
 
 def float_laws(ctx, real, rnd, full=True):
-    """full: every extra factor / element type on every shape; otherwise one extra factor per shape and float32 on
-    a third of the shapes"""
+    """full: every extra factor / element type on every shape; otherwise one far factor on a quarter of the shapes and
+    float32 on a seventh"""
     byshape = {}
     for w in real:
         a = np.nan_to_num(w)
@@ -697,9 +707,9 @@ def float_laws(ctx, real, rnd, full=True):
         # no sample is so small that the product would lose bits
         far = [c for c in (2.0 ** -20, 2.0 ** 20) if nz.size and nz.min() > 1e-200]
         if not full and far:
-            far = [rnd.choice(far)]
+            far = [rnd.choice(far)] if rnd.random() < 0.25 else []
         kinds = [(np.float64, [0.5, 2.0, 4.0] + far, True)]
-        if full or rnd.random() < 0.34:
+        if full or rnd.random() < 0.15:
             kinds.append((np.float32, [2.0], False))
         for dtype, factors, with_perm in kinds:
             arr = arr64.astype(dtype)
